@@ -8,7 +8,7 @@
    of ValidateState), [root]/[uroot]/[bhash] are ANY hash functions; nothing is assumed about
    them (collisions appear as explicit disjuncts). *)
 From Coq Require Import List NArith Bool String.
-From GQ Require Import Model.C07 Generated.C07Checks Proofs.C07 Proofs.C07_Sel.
+From GQ Require Import Model.C07 Generated.C07Checks Proofs.C07 Proofs.C07_Sel Proofs.C07_Skip.
 Import ListNotations.
 Local Open Scope N_scope.
 
@@ -306,6 +306,101 @@ Theorem worker_reservation_set_is_insert_only : worker_reservation_insert_only =
 Proof. vm_compute. reflexivity. Qed.
 Print Assumptions worker_reservation_set_is_insert_only.
 
+(* === third round: skipped pool transactions, minimum inclusion of the inbound ETX queue === *)
+
+(* worker.commitTransaction with the snapshot / revert around ApplyTransaction: for ANY execution function
+   (which may write to the state and then fail), ANY state and ANY pool content in ANY order, the worker's
+   pending state after filling the block is exactly the state the validator reaches by re-executing the
+   included transactions only, and none of them fails there. *)
+Theorem worker_pending_state_is_reexecution_state :
+  forall (S T : Type) (apply : S -> T -> S * bool) pool st,
+  vexec S T apply st (snd (wfill S T apply Revert st pool)) = Some (fst (wfill S T apply Revert st pool)).
+Proof. exact wfill_revert_vexec. Qed.
+Print Assumptions worker_pending_state_is_reexecution_state.
+
+(* the included list is a sub-list of the pool content (nothing is invented) *)
+Theorem worker_includes_only_pool_transactions :
+  forall (S T : Type) (apply : S -> T -> S * bool) p pool st, incl (snd (wfill S T apply p st pool)) pool.
+Proof. exact wfill_included_sublist. Qed.
+Print Assumptions worker_includes_only_pool_transactions.
+
+(* without the revert the statement is false: buy gas, then fail on the value (state = (nonce, balance)) *)
+Theorem skip_without_revert_refuted :
+  exists (pool : list (N * N * N)) (st : N * N),
+    vexec _ _ toy_apply st (snd (wfill _ _ toy_apply KeepEffects st pool))
+    <> Some (fst (wfill _ _ toy_apply KeepEffects st pool)).
+Proof. exact skip_without_revert_refuted_l. Qed.
+Print Assumptions skip_without_revert_refuted.
+
+(* … and invisible as long as no pool transaction fails in ApplyTransaction (why ordinary traffic and the
+   existing tests do not see it) *)
+Theorem skip_policies_agree_without_failures :
+  forall (S T : Type) (apply : S -> T -> S * bool) pool st,
+  (forall st' t, In t pool -> snd (apply st' t) = true) ->
+  wfill S T apply KeepEffects st pool = wfill S T apply Revert st pool.
+Proof. exact wfill_policies_agree_without_failures. Qed.
+Print Assumptions skip_policies_agree_without_failures.
+
+(* Process' range rule, gas regime, with the queue head probed after the block's pops: a block that includes
+   the first k ETXs of the queue q passes iff it drains the queue or reaches the minimum, and stays below the
+   maximum *)
+Theorem accepted_block_drains_queue_or_reaches_minimum_gas :
+  forall q k minG maxG, (k <= List.length q)%nat ->
+  rule_gas AfterPops q k minG maxG = true ->
+  (k = List.length q \/ minG <= gas_of q k) /\ gas_of q k <= maxG.
+Proof. exact rule_gas_sound. Qed.
+Print Assumptions accepted_block_drains_queue_or_reaches_minimum_gas.
+
+Theorem block_draining_queue_or_reaching_minimum_gas_is_accepted :
+  forall q k minG maxG, (k = List.length q \/ minG <= gas_of q k) -> gas_of q k <= maxG ->
+  rule_gas AfterPops q k minG maxG = true.
+Proof. exact rule_gas_complete. Qed.
+Print Assumptions block_draining_queue_or_reaching_minimum_gas_is_accepted.
+
+(* count regime (block number <= TimeToStartTx) *)
+Theorem accepted_block_drains_queue_or_reaches_minimum_count :
+  forall q k minC maxC, (k <= List.length q)%nat ->
+  rule_count AfterPops q k minC maxC = true ->
+  (k = List.length q \/ minC <= N.of_nat k) /\ N.of_nat k <= maxC.
+Proof. exact rule_count_sound. Qed.
+Print Assumptions accepted_block_drains_queue_or_reaches_minimum_count.
+
+(* with the queue index read before the loop (the slot is deleted by the first pop) the lower bound is void
+   for every block that pops at least one ETX, in both regimes; concrete: 1 of 4 queued ETXs *)
+Theorem queue_probe_before_pops_refuted :
+  exists q k minG maxG,
+    (1 <= k < List.length q)%nat /\ gas_of q k < minG
+    /\ rule_gas AfterPops q k minG maxG = false /\ rule_gas BeforePops q k minG maxG = true
+    /\ rule_count AfterPops q k 50 100 = false /\ rule_count BeforePops q k 50 100 = true.
+Proof. exact hoisted_probe_refuted_l. Qed.
+Print Assumptions queue_probe_before_pops_refuted.
+
+Theorem queue_probe_before_pops_accepts_any_nonempty_prefix :
+  forall q k minG maxG minC maxC, (1 <= k)%nat -> gas_of q k <= maxG -> N.of_nat k <= maxC ->
+  rule_gas BeforePops q k minG maxG = true /\ rule_count BeforePops q k minC maxC = true.
+Proof. exact hoisted_probe_accepts_any_nonempty_prefix. Qed.
+Print Assumptions queue_probe_before_pops_accepts_any_nonempty_prefix.
+
+(* … while a block ignoring a non-empty queue altogether is rejected either way (why the simple negative
+   test does not tell the two apart) *)
+Theorem block_ignoring_nonempty_queue_rejected_under_both_probes :
+  forall p q minG maxG minC maxC, q <> [] -> 0 < minG -> 0 < minC ->
+  rule_gas p q 0 minG maxG = false /\ rule_count p q 0 minC maxC = false.
+Proof. exact empty_block_rejected_under_both_probes. Qed.
+Print Assumptions block_ignoring_nonempty_queue_rejected_under_both_probes.
+
+(* generated from the current source: worker.commitTransaction takes a snapshot before ApplyTransaction and
+   the error branch directly after the call reverts to that very snapshot before returning the error *)
+Theorem worker_reverts_skipped_transaction : worker_skip_reverts = true.
+Proof. vm_compute. reflexivity. Qed.
+Print Assumptions worker_reverts_skipped_transaction.
+
+(* generated from the current source: Process probes the queue head (GetOldestIndex, ReadETX) after the loop
+   that pops the block's ETXs, directly before the two range rules, whose conditions are the reviewed ones *)
+Theorem process_probes_queue_after_pops : queue_probed_after_pops = true.
+Proof. vm_compute. reflexivity. Qed.
+Print Assumptions process_probes_queue_after_pops.
+
 (* === non-vacuity === *)
 
 (* a concrete instance: transactions are numbers, the root of a list is its sum + length*1000,
@@ -361,4 +456,22 @@ Example worker_selection_nonvacuous :
   /\ map p_ins (wselect ReleaseNamed [5; 7; 8; 9] pool) = [[7]; [9; 7]; [5]; [8]]
   /\ vspend [5; 7; 8; 9] (wselect KeepAll [5; 7; 8; 9] pool) = true
   /\ vspend [5; 7; 8; 9] (wselect ReleaseNamed [5; 7; 8; 9] pool) = false.
+Proof. vm_compute. repeat split; reflexivity. Qed.
+
+(* skipped transactions on a concrete pool: the second transaction can pay its gas but not its value after
+   the first one; with the revert the pending state (1, 10) is what re-execution of [first] gives, without
+   it the pending balance is 0 *)
+Example worker_pending_state_nonvacuous :
+  let pool := [(0, 10, 80); (1, 10, 50); (1, 5, 1)] in
+  wfill _ _ toy_apply Revert (0, 100) pool = ((2, 4), [(0, 10, 80); (1, 5, 1)])
+  /\ vexec _ _ toy_apply (0, 100) [(0, 10, 80); (1, 5, 1)] = Some (2, 4)
+  /\ fst (wfill _ _ toy_apply KeepEffects (0, 100) pool) = (1, 0)
+  /\ snd (wfill _ _ toy_apply KeepEffects (0, 100) pool) = [(0, 10, 80)].
+Proof. vm_compute. repeat split; reflexivity. Qed.
+
+Example minimum_inclusion_nonvacuous :
+  rule_gas AfterPops [400000; 400000; 400000; 21000] 3 1000000 2000000 = true
+  /\ rule_gas AfterPops [400000; 400000; 400000; 21000] 2 1000000 2000000 = false
+  /\ rule_gas AfterPops [21000; 21000] 2 1000000 2000000 = true
+  /\ rule_gas AfterPops [1500000; 600000] 2 1000000 2000000 = false.
 Proof. vm_compute. repeat split; reflexivity. Qed.
